@@ -71,6 +71,7 @@ def shards(tier):
                 for i in range(k):
                     out.append({"buf": buf, "kind": "chain", "mech": mech, "depth": depth, "W": W, "slice": [i, k]})
     out.append({"buf": 8192, "kind": "qcow2-snap", "slice": [0, 1]})
+    out.append({"buf": 512, "kind": "qcow2-snap-seq"})
     out.append({"buf": 8192, "kind": "locate"})
     return out
 
@@ -87,6 +88,11 @@ def run_shard(shard, ctx):
         _shard_chain(shard, ctx)
     elif kind == "qcow2-snap":
         _shard_qsnap(shard, ctx)
+    elif kind == "qcow2-snap-seq":
+        for pat in itertools.product("AB", repeat=6):
+            for bpos in (0, 3, 6):
+                for backing in (True, False):
+                    _case_qsnap_seq({"kind": "qcow2-snap-seq", "pattern": "".join(pat), "bpos": bpos, "backing": backing}, ctx)
     elif kind == "locate":
         _shard_locate(shard, ctx)
     else:
@@ -106,6 +112,8 @@ def run_case(case, ctx):
             _case_chain(case, ctx, d, {})
         elif kind == "qcow2-snap":
             _case_qsnap(case, ctx)
+        elif kind == "qcow2-snap-seq":
+            _case_qsnap_seq(case, ctx)
         elif kind == "locate":
             _case_locate(case, ctx, d)
         else:
@@ -682,8 +690,11 @@ def _shard_qsnap(shard, ctx):
                         for at0 in (False, True):
                             if at0 and short_l1:
                                 continue
-                            _case_qsnap({"kind": "qcow2-snap", "active": list(active), "snaps": [list(s1), list(s2)],
-                                         "short_l1": short_l1, "prime": prime, "at0": at0}, ctx)
+                            for backing in (False, True):
+                                if backing and (short_l1 or not at0):
+                                    continue
+                                _case_qsnap({"kind": "qcow2-snap", "active": list(active), "snaps": [list(s1), list(s2)],
+                                             "short_l1": short_l1, "prime": prime, "at0": at0, "backing": backing}, ctx)
 
 
 def _case_qsnap(case, ctx):
@@ -708,14 +719,20 @@ def _case_qsnap(case, ctx):
     for n, st in enumerate(snaps):
         sdefs.append({"states": st, "slots": slots_of(st, n + 1), "id": str(n + 1), "name": f"snap-{n}", "layer": n + 2,
                       "window_at": at, "l1_size": 1 if (case["short_l1"] and n == 0) else None})
-    img, _ = B.build(active, slots_of(active, 0), cb, 3, None, at, total, snapshots=sdefs)
-    models = [B.model(active, cb, None, at, total, 1)]
+    backing = case.get("backing")
+    img, _ = B.build(active, slots_of(active, 0), cb, 3, None, at, total, snapshots=sdefs,
+                     backing_name="base.raw" if backing else None)
+    parent = None
+    if backing:
+        # all views fall through to one shared backing file object for their unallocated clusters
+        parent = GuestDisk(total * cs, cs, [DATA] * total, 9)
+    models = [B.model(active, cb, None, at, total, 1, parent)]
     for n, st in enumerate(snaps):
         st_eff = list(st)
         if case["short_l1"] and n == 0:
             # a snapshot L1 table with one entry covers only the first L2 table: clusters beyond read as unallocated
             st_eff = [x if (at + i) < l2n else "U" for i, x in enumerate(st)]
-        models.append(B.model(st_eff, cb, None, at, total, n + 2))
+        models.append(B.model(st_eff, cb, None, at, total, n + 2, parent))
     ctx.model(case)
     ctx.executions += 1
     ctx.sample(case)
@@ -725,7 +742,12 @@ def _case_qsnap(case, ctx):
     reqs = request_pairs(sorted(set(pts)))
     with ctx.watch(case):
         try:
-            q = QCow2(img.bytesio())
+            if backing:
+                from mc.vfile import TrapBytesIO
+
+                q = QCow2(img.bytesio(), backing_file=TrapBytesIO(pattern.span(9, 0, total * cs)))
+            else:
+                q = QCow2(img.bytesio())
             if case.get("prime"):
                 # the active view is used before the snapshot views are opened (views are copies of the active object:
                 # whatever the active object has buffered or cached at that moment must not show through)
@@ -755,6 +777,55 @@ def _case_qsnap(case, ctx):
                 _count_sources(ctx, models[vi], [(a, n)])
                 if not compare_reads(ctx, sub, views[vi], models[vi], [(a, n)], f"qcow2.snapshot.view{vi}.read"):
                     return
+
+
+def _case_qsnap_seq(case, ctx):
+    """Shape B: the active view reads sequentially (no seeks) while a snapshot view of the same image -- sharing the file
+    handle, the L2 cache and the backing file object -- reads elsewhere in between, in every A/B pattern of length 6."""
+    from dissect.hypervisor.disk.qcow2 import QCow2
+
+    from mc.builders import qcow2 as B
+    from mc.models import StreamModel
+    from mc.vfile import TrapBytesIO
+
+    cs, W = 512, 8
+    act = ["U", "N", "U", "U", "N", "U", "Z", "U"]
+    snp = ["N", "U", "U", "N", "U", "U", "U", "N"]
+    sl = lambda st, base: [base + i if x == "N" else None for i, x in enumerate(st)]  # noqa: E731
+    backing = case["backing"]
+    img, _ = B.build(act, sl(act, 0), 9, 3, W * cs - 100, snapshots=[{"states": snp, "slots": sl(snp, W), "layer": 2}],
+                     backing_name="b.raw" if backing else None)
+    parent = GuestDisk(W * cs - 100, cs, [DATA] * W, 9) if backing else None
+    models = [StreamModel(B.model(act, 9, W * cs - 100, layer=1, parent=parent)),
+              StreamModel(B.model(snp, 9, W * cs - 100, layer=2, parent=parent))]
+    ctx.model(case)
+    ctx.executions += 1
+    ctx.sample(case)
+    ctx.nontrivial += 1
+    with ctx.watch(case):
+        kw = {"backing_file": TrapBytesIO(pattern.span(9, 0, W * cs - 100))} if backing else {}
+        q = QCow2(img.bytesio(), **kw)
+        views = [q, q.snapshots[0].open()]
+        views[1].seek(case["bpos"] * cs + 7)
+        models[1].apply(("seek", case["bpos"] * cs + 7, 0))
+        for step, who in enumerate(case["pattern"]):
+            vi = 0 if who == "A" else 1
+            n = 700 if vi == 0 else 600
+            ctx.transitions += 1
+            ctx.states += 1
+            exp = models[vi].apply(("read", n))
+            try:
+                got = views[vi].read(n)
+            except Exception as e:
+                ctx.violation(case, {"subject": "qcow2.snapshot.sequential", "kind": "exception", "exc": type(e).__name__},
+                              {"step": step, "exception": repr(e)[:200]})
+                return
+            if got != exp:
+                ctx.violation(case, {"subject": "qcow2.snapshot.sequential", "kind": "mismatch", "view": vi},
+                              {"step": step, "pattern": case["pattern"], "len_got": len(got), "len_expected": len(exp)})
+                return
+            for s_ in {models[vi].disk.source(max(0, models[vi].pos - 1))}:
+                ctx.outcome(s_)
 
 
 # ---- parent resolution configurations (VMDK, QCOW2 opt-out, Parallels) ---------------------------------------------
